@@ -357,3 +357,23 @@ func H_C15_extract_other() {
 	}
 	vReach("end")
 }
+
+// the label follows the message only: CJK text in the rule's value does not make an ASCII message Chinese
+func H_C15_label_from_message() {
+	msg := vC15Msg("msg", 3)
+	switch vndChoice("rule", 4) {
+	case 0:
+		err := Var("abc", "in=(男/女)|"+msg)
+		vAssert(err != nil && err.Error() == "input \"abc\", "+vC14Label(msg), "C15 label: CJK options, label chosen by the message")
+	case 1:
+		err := Var("abc", "prefix=名|"+msg)
+		vAssert(err != nil && err.Error() == "input \"abc\", "+vC14Label(msg), "C15 label: CJK prefix, label chosen by the message")
+	case 2:
+		err := Var("abc", "re='^[一-龥]+$'|"+msg)
+		vAssert(err != nil && err.Error() == "input \"abc\", "+vC14Label(msg), "C15 label: CJK pattern, label chosen by the message")
+	case 3:
+		_, _, m := ParseValidNameKV("include=(中)|" + msg)
+		vAssert(m == vC14Label(msg), "C15 label: ParseValidNameKV decides by the message")
+	}
+	vReach("end")
+}
